@@ -636,4 +636,111 @@ theorem MatchedBy_CheckedBy {v} {ops : List Op} {s : Suppr} (h : MatchedBy v ops
   rcases h with ⟨g, m, h1, h2, h3⟩
   exact Or.inl ⟨g, m, h1, h2, by rw [h3]; simp⟩
 
+/- ---- audit follow-up: token stream loop, worker logger, copy list ------------------------------------------------ -/
+
+
+theorem markOne_cases (f : Str) (l : Int) (s : Suppr) :
+    markOne f l s = s ∨ markOne f l s = { s with checked := true } := by
+  unfold markOne
+  split <;> split <;> simp
+
+theorem markOne_of_checked (f : Str) (l : Int) (s : Suppr) (h : s.checked = true) : markOne f l s = s := by
+  unfold markOne
+  split <;> simp [h]
+
+theorem markOne_idem (f : Str) (l : Int) (s : Suppr) : markOne f l (markOne f l s) = markOne f l s := by
+  rcases markOne_cases f l s with h | h
+  · rw [h, h]
+  · rw [h]; exact markOne_of_checked f l _ rfl
+
+theorem markStream_inv : ∀ (locs : List (Str × Int)) (cur : Option (Str × Int)) (st : State),
+    (∀ l, cur = some l → st.map (markOne l.1 l.2) = st) → markStream cur locs st = mark locs st := by
+  intro locs
+  induction locs with
+  | nil => intro cur st _; rfl
+  | cons a r ih =>
+    intro cur st h
+    unfold markStream
+    have hm : mark (a :: r) st = mark r (st.map (markOne a.1 a.2)) := rfl
+    by_cases hc : cur = some a
+    · have : (cur == some a) = true := by simp [hc]
+      simp only [this, if_true]
+      rw [hm, h a hc]
+      exact ih cur st h
+    · have : (cur == some a) = false := by simpa using hc
+      simp only [this, Bool.false_eq_true, if_false]
+      rw [hm]
+      apply ih
+      intro l hl
+      cases hl
+      simp [List.map_map, Function.comp_def, markOne_idem]
+
+/-- the loop with its position variables marks exactly what the plain fold over all token positions marks -/
+theorem markStream_eq_mark (locs : List (Str × Int)) (st : State) : markStream none locs st = mark locs st :=
+  markStream_inv locs none st (by intro l h; cases h)
+
+/-- on the pure flag level the worker's two calls (local, then all) leave the list as the single call over all suppressions -/
+theorem evolve1_sup_eq (v) (s : Suppr) (g : Bool) (m : Msg) :
+    evolve1 v s (.sup g m) = if eligible g m.id s then (applyRes s (v s m)).1 else s := rfl
+
+theorem evolve1_local_then_global (v) (hv : FlagFree v) (s : Suppr) (m : Msg) :
+    evolve1 v (evolve1 v s (.sup false m)) (.sup true m) = evolve1 v s (.sup true m) := by
+  generalize hs' : evolve1 v s (.sup false m) = s'
+  have hc : clear s' = clear s := by rw [← hs']; exact clear_evolve1 v s _
+  rw [evolve1_sup_eq v s' true m, evolve1_sup_eq v s true m, eligible_congr hc true m.id, v_congr hv hc m]
+  rw [evolve1_sup_eq] at hs'
+  by_cases h1 : eligible false m.id s = true
+  · have h2 : eligible true m.id s = true := by
+      simp only [eligible, Bool.and_eq_true, Bool.or_eq_true] at h1 ⊢
+      exact ⟨Or.inl trivial, h1.2⟩
+    simp only [h1, if_true] at hs'
+    simp only [h2, if_true, ← hs']
+    cases v s m <;> simp [applyRes]
+  · simp only [h1, Bool.false_eq_true, if_false] at hs'
+    rw [← hs']
+
+theorem workerReportErr_true_eq (v) (hv : FlagFree v) (st : State) (m : Msg) :
+    workerReportErr true v st m = stepOp v st (.sup true m) := by
+  have h1 : (isSuppressedWith false m.id st (st.map (v · m))).1 = st.map (fun s => evolve1 v s (.sup false m)) := sup_map v false m st
+  have h2 : ∀ st', (isSuppressedWith true m.id st' (st'.map (v · m))).1 = st'.map (fun s => evolve1 v s (.sup true m)) := sup_map v true m
+  unfold workerReportErr
+  simp only [if_true, stepOp]
+  have : (isSuppressedWith true m.id (isSuppressedWith false m.id st (st.map (v · m))).1
+      ((isSuppressedWith false m.id st (st.map (v · m))).1.map (v · m))).1 = (isSuppressedWith true m.id st (st.map (v · m))).1 := by
+    rw [h2, h1, h2, List.map_map]
+    apply List.map_congr_left
+    intro s _
+    exact evolve1_local_then_global v hv s m
+  split <;> exact this
+
+theorem recopy_sub_aux : ∀ (l : State) (acc : State) (s : Suppr),
+    s ∈ l.foldl (fun acc s => (addSuppression true s acc).1) acc → s ∈ acc ∨ s ∈ l := by
+  intro l
+  induction l with
+  | nil => intro acc s h; exact Or.inl h
+  | cons a r ih =>
+    intro acc s h
+    simp only [List.foldl_cons] at h
+    rcases ih _ s h with h1 | h1
+    · unfold addSuppression at h1
+      split at h1
+      · exact Or.inl h1
+      · split at h1
+        · exact Or.inl h1
+        · split at h1
+          · exact Or.inl h1
+          · split at h1
+            · exact Or.inl h1
+            · rcases List.mem_append.mp h1 with h2 | h2
+              · exact Or.inl h2
+              · simp at h2; subst h2; exact Or.inr List.mem_cons_self
+    · exact Or.inr (List.mem_cons_of_mem _ h1)
+
+/-- the copy the report works on holds only entries of the list -/
+theorem recopy_sub {st : State} {s : Suppr} (h : s ∈ recopy st) : s ∈ st := by
+  rcases recopy_sub_aux st [] s h with h | h
+  · simp at h
+  · exact h
+
+
 end Cppcheck.Unmatched
